@@ -95,6 +95,9 @@ pub struct ExpTx {
     /// a mint/burn block names an asset class whose quantity in that block, or net over all blocks,
     /// is zero (not a ledger field: only used to decide whether the case is in range)
     pub zero_mint: bool,
+    /// the template leaves the meaning open (e.g. a redeemer on a mint block whose policy cancels out
+    /// against a burn, or that names several policies): such cases are counted, not judged
+    pub ambiguous: Option<String>,
 }
 
 #[derive(Clone, Debug, PartialEq)]
@@ -416,6 +419,16 @@ impl<'a> Sem<'a> {
             mint = assets_add(&mint, &if sign == 1 { block } else { assets_neg(&block) });
         }
         let _ = mentioned;
+        for m in tx.mints.iter().chain(tx.burns.iter()) {
+            if m.redeemer.is_some() {
+                let pols: BTreeSet<Vec<u8>> = self.classes_mentioned(&m.amount)?.into_iter().filter_map(|k| k.map(|(p, _)| p)).collect();
+                if pols.len() != 1 {
+                    out.ambiguous = Some("redeemer on a mint block naming several policies".into());
+                } else if !mint.keys().any(|k| matches!(k, Some((p, _)) if pols.contains(p))) {
+                    out.ambiguous = Some("redeemer on a mint block whose policy cancels out".into());
+                }
+            }
+        }
         for (k, v) in mint {
             match k {
                 Some(k) => {
@@ -507,8 +520,7 @@ impl<'a> Sem<'a> {
         for m in tx.mints.iter().chain(tx.burns.iter()) {
             if let Some(r) = &m.redeemer {
                 let data = self.to_pd(&self.eval(r)?)?;
-                let a = self.assets_of(&m.amount)?;
-                let pols: BTreeSet<Vec<u8>> = a.keys().filter_map(|k| k.clone().map(|(p, _)| p)).collect();
+                let pols: BTreeSet<Vec<u8>> = self.classes_mentioned(&m.amount)?.into_iter().filter_map(|k| k.map(|(p, _)| p)).collect();
                 for p in pols {
                     if let Some(rank) = policies.iter().position(|x| *x == p) {
                         out.insert((1u8, rank as u32), data.clone());
